@@ -10,3 +10,22 @@ void h_join_plain(void) { vout* ret; const vsvec* items; IN_GHOSTS; join_plain(r
 #define SPLITFN split
 #define LEMMA_NAME l_join_split
 #include "harness/C08/lemma.h"
+
+/* ---- bounded stand-in for the numeric clause  count == min(#delimiters, max_splits or infinity) + 1  (strings up to BSPLIT_N bytes,
+ * every content, delimiter and max_splits; find has its executable definition here) ------------------------------------------- */
+#ifdef C8_CONCRETE
+#ifndef BSPLIT_N
+#define BSPLIT_N 6
+#endif
+void b_split_count(void) {
+  char in_buf[BSPLIT_N]; size_t in_size, in_max_splits; char in_delim; IN_GHOSTS; verif_exc = 0;
+  __CPROVER_assume(in_size <= BSPLIT_N);
+  vstr s = { in_buf, in_size, BSPLIT_N }; vvec ret = { 0 };
+  split(&ret, &s, in_delim, in_max_splits);
+  size_t n = 0;
+  for (size_t i = 0; i < in_size; i++) if (in_buf[i] == in_delim) n++;
+  __CPROVER_assert(verif_exc == 0, "split does not throw");
+  __CPROVER_assert(ret.size == ((in_max_splits != 0 && in_max_splits < n) ? in_max_splits : n) + 1, "count == min(#delimiters, max_splits) + 1");
+  VERIF_REACH();
+}
+#endif
